@@ -6,8 +6,8 @@
 
       C11_safe : ∀ f dev bytes st, safe (decode f dev bytes st)        (safe = neither `ub _ _` nor `hang _`)
 
-  is still FALSE for the current code at two sites (BMP palette indices beyond the declared entries silently read as
-  black; the `int` image size of the TARGA RLE reader). Below: machine-checked witnesses
+  is still FALSE for the current code at one site (BMP palette indices beyond the declared entries are silently read as
+  black instead of being reported). Below: machine-checked witnesses
   (`*_witness`, `decide`, each also replayed on the real readers under ASan/UBSan by the harness:
   checks/C11_witnesses.json), the negation of the full statement per format, regression theorems for the defects
   fixed in /repo during this work (their former witnesses now decode to an exception or to a correct image), and what
@@ -50,14 +50,7 @@ theorem C11_bmp_palette_index_padded_witness :
       { entry := .image, dst := .rgba8, x0 := 0, y0 := 0, dw := 0, dh := 0, vw := 0, vh := 0 }) = some "inconsistent-data-accepted" := by
   decide +kernel
 
-/-- RLE TARGA declaring 65535 x 65535 pixels, read with a 1x1 sub-rectangle: `_info._width * _info._height * bytes_per_pixel`
-    is computed in int and overflows (read_rle_data) -/
-theorem C11_targa_rle_image_size_overflow_witness :
-    ubSite (decode .tga .file (bytesOfHex 0x00000a000000000000000000ffffffff180083010203 22 [])
-      { entry := .image, dst := .rgb8, x0 := 0, y0 := 0, dw := 1, dh := 1, vw := 0, vh := 0 }) = some "signed-integer-overflow@extension/io/targa/detail/read.hpp:read_rle_data" := by
-  decide +kernel
-
-/-! ## the full statement is false for the BMP and TARGA readers; for PNM no counterexample is known any more -/
+/-! ## the full statement is false for the BMP reader; for PNM and TARGA no counterexample is known any more -/
 
 /-- OPEN (not provable: false today): `∀ dev bytes st, safe (decode .bmp dev bytes st)`; its negation: -/
 theorem C11_safe_bmp_false : ¬ ∀ (dev : Dev) (bytes : List UInt8) (st : Settings), safe (decode .bmp dev bytes st) = true := by
@@ -67,15 +60,8 @@ theorem C11_safe_bmp_false : ¬ ∀ (dev : Dev) (bytes : List UInt8) (st : Setti
   revert this
   decide +kernel
 
-/-- OPEN (false today): `∀ dev bytes st, safe (decode .tga dev bytes st)`; its negation: -/
-theorem C11_safe_tga_false : ¬ ∀ (dev : Dev) (bytes : List UInt8) (st : Settings), safe (decode .tga dev bytes st) = true := by
-  intro h
-  have := h .file (bytesOfHex 0x00000a000000000000000000ffffffff180083010203 22 [])
-      { entry := .image, dst := .rgb8, x0 := 0, y0 := 0, dw := 1, dh := 1, vw := 0, vh := 0 }
-  revert this
-  decide +kernel
-
--- OPEN (not proven, no counterexample known since /repo 84ae407): ∀ dev bytes st, safe (decode .pnm dev bytes st)
+-- OPEN (not proven, no counterexample known since /repo 84ae407 / 84b4471):
+--   ∀ dev bytes st, safe (decode .pnm dev bytes st)   and   ∀ dev bytes st, safe (decode .tga dev bytes st)
 
 /-! ## defects fixed in /repo stay fixed: the former witnesses now give an exception or a correct image -/
 
@@ -167,6 +153,13 @@ theorem C11_targa_short_row_read_is_error :
 theorem C11_bmp_pitch_overflow_is_error :
     decode .bmp .file (bytesOfHex 0x424d46000000000000003600000028000000ffffff7f02000000010018000000000000000000130b0000130b0000000000000000000001020304050600000708090a0b0c0000 70 [])
       { entry := .scan, dst := .none, x0 := 0, y0 := 0, dw := 0, dh := 0, vw := 0, vh := 0 } = .err "io" := by
+  decide +kernel
+
+/-- RLE TARGA declaring 65535 x 65535 pixels, read with a 1x1 sub-rectangle: `_info._width * _info._height * bytes_per_pixel`
+    was computed in int and overflowed (84b4471: now size_t, the 12 GB buffer request ends in bad_alloc) -/
+theorem C11_targa_rle_image_size_is_alloc_error :
+    decode .tga .file (bytesOfHex 0x00000a000000000000000000ffffffff180083010203 22 [])
+      { entry := .image, dst := .rgb8, x0 := 0, y0 := 0, dw := 1, dh := 1, vw := 0, vh := 0 } = .err "alloc" := by
   decide +kernel
 
 /-! ## the models decode valid files -/
